@@ -85,7 +85,7 @@ var fuzzEndpoints = []string{"r-list", "r-check", "r-check-open", "r-postcheck",
 var fuzzMutations = []string{"valid", "unknown-ns", "no-subject", "both-subjects", "body-null", "null-element", "wrong-types",
 	"depth-negative", "depth-huge", "depth-nan", "size-negative", "size-huge", "size-nan", "bad-token",
 	"empty-strings", "huge-strings", "truncated-json", "empty-body", "extra-fields", "absent-submessage",
-	"unknown-action", "batch-too-large", "invalid-utf8", "wrong-method", "no-namespace"}
+	"unknown-action", "batch-too-large", "invalid-utf8", "wrong-method", "no-namespace", "size-maxint", "id-and-partial-set"}
 
 func isREST(e string) bool { return strings.HasPrefix(e, "r-") || strings.HasPrefix(e, "w-") || strings.HasPrefix(e, "s-") }
 func hasBody(e string) bool {
@@ -123,8 +123,10 @@ func applicable(e, m string) bool {
 		return hasDepth(e)
 	case "depth-nan":
 		return hasDepth(e) && isREST(e)
-	case "size-negative", "size-huge", "bad-token":
+	case "size-negative", "size-huge", "bad-token", "size-maxint":
 		return hasPaging(e)
+	case "id-and-partial-set":
+		return e == "r-check" || e == "r-check-open" || e == "r-list" || e == "w-delete"
 	case "size-nan":
 		return e == "r-list"
 	case "empty-strings", "huge-strings", "invalid-utf8":
@@ -265,6 +267,8 @@ func (f *fuzzEnv) fire(r *rand.Rand, e, m string) (class string) {
 		size = pick(r, []string{"2147483647", "1000000"})
 	case "size-nan":
 		size = pick(r, []string{"abc", "1.5", "9223372036854775808"})
+	case "size-maxint":
+		size = pick(r, []string{"9223372036854775807", "4611686018427387904", "0x7fffffffffffffff", "9223372036854775806"})
 	case "bad-token":
 		token = pick(r, []string{"zzz", "123", "00000000-0000-0000-0000-00000000000g", huge[:300]})
 	}
@@ -287,6 +291,20 @@ func (f *fuzzEnv) fire(r *rand.Rand, e, m string) (class string) {
 		q.Set("subject_set.namespace", "Group")
 		q.Set("subject_set.object", "g")
 		q.Set("subject_set.relation", "members")
+	}
+	if m == "id-and-partial-set" {
+		q.Del("subject_set.namespace")
+		q.Del("subject_set.object")
+		q.Del("subject_set.relation")
+		q.Set("subject_id", subID)
+		keys := []string{"subject_set.namespace", "subject_set.object", "subject_set.relation"}
+		vals := []string{"Group", "g", "members"}
+		k := r.Intn(3)
+		q.Set(keys[k], vals[k])
+		if r.Intn(2) == 0 {
+			k2 := (k + 1 + r.Intn(2)) % 3
+			q.Set(keys[k2], vals[k2])
+		}
 	}
 	if m == "no-namespace" {
 		q.Del("namespace")
@@ -354,7 +372,7 @@ func (f *fuzzEnv) fire(r *rand.Rand, e, m string) (class string) {
 				lq[k] = v
 			}
 		}
-		if m != "both-subjects" && r.Intn(2) == 0 {
+		if m != "both-subjects" && m != "id-and-partial-set" && r.Intn(2) == 0 {
 			lq.Del("subject_id")
 			lq.Del("subject_set.namespace")
 			lq.Del("subject_set.object")
@@ -470,7 +488,7 @@ func (f *fuzzEnv) fire(r *rand.Rand, e, m string) (class string) {
 		switch m {
 		case "size-negative":
 			req.PageSize = -1
-		case "size-huge":
+		case "size-huge", "size-maxint":
 			req.PageSize = 2147483647
 		case "bad-token":
 			req.PageToken = token
